@@ -200,6 +200,8 @@ inductive Action
   | cCtx (p : Nat)            -- consumer: `<-ctx.Done()`
   | cCancel (p : Nat)         -- consumer: deferred `cancel()`, `Run` returns
   | pCancel (p : Nat)         -- environment: the parent context is cancelled
+  | rTrunc (p u : Nat)        -- effect of the deferred `f.Close()` after `Run` returned: the reader's scanner fails
+                              -- early; only `u` of its unread lines remain (the batch already built is kept)
   deriving DecidableEq, Repr, Inhabited
 
 def step (s : State) : Action → Option State
@@ -292,6 +294,12 @@ def step (s : State) : Action → Option State
     let P := s.pipe p
     if p < s.np ∧ P.parentCancelled = false then
       some (s.setPipe p { P with parentCancelled := true })
+    else none
+  | .rTrunc p u =>
+    let P := s.pipe p
+    if p < s.np ∧ P.localCancelled = true ∧ u < P.unread ∧
+        (P.rpc = .sel ∨ ((P.rpc = .hold ∨ P.rpc = .write) ∧ P.cur ≤ u)) then
+      some (s.setPipe p { P with unread := u, scanErr := true, rpc := if P.rpc = .sel ∧ u = 0 then .fin else P.rpc })
     else none
 
 /-- run a schedule; `none` if some action of it is not enabled -/
